@@ -39,7 +39,8 @@ def is_tie(v, sig_or_places, kind):
         return False
     if kind == "f":
         q = decimal.Decimal(1).scaleb(-sig_or_places)
-        return d.quantize(q, rounding=decimal.ROUND_HALF_UP) != d.quantize(q, rounding=decimal.ROUND_HALF_EVEN)
+        big = decimal.Context(prec=1200)
+        return d.quantize(q, rounding=decimal.ROUND_HALF_UP, context=big) != d.quantize(q, rounding=decimal.ROUND_HALF_EVEN, context=big)
     up = decimal.Context(prec=max(sig_or_places, 1), rounding=decimal.ROUND_HALF_UP).create_decimal(d)
     ev = decimal.Context(prec=max(sig_or_places, 1), rounding=decimal.ROUND_HALF_EVEN).create_decimal(d)
     return up != ev
